@@ -189,7 +189,7 @@ impl<const N: u32> PxE1<{ N }> {
                     }
                     exp_z ^= 1;
                     if (frac64_z & 0x1) != 0 {
-                        bits_more = false;
+                        bits_more = true;
                     }
                     frac64_z = (frac64_z >> 1) & 0x_7FFF_FFFF_FFFF_FFFF;
                 } else {
@@ -235,7 +235,7 @@ impl<const N: u32> PxE1<{ N }> {
                     if reg_z + 2 != N {
                         bit_n_plus_one =
                             ((0x_8000_0000_0000_0000_u64 >> (N - reg_z - 1)) & frac64_z) != 0;
-                        bits_more =
+                        bits_more |=
                             ((0x_7FFF_FFFF_FFFF_FFFF_u64 >> (N - reg_z - 1)) & frac64_z) != 0;
                         frac_z &= Self::mask();
                     } else if frac64_z > 0 {
